@@ -36,6 +36,8 @@ def run(ck):
     header_derivation(ck, "C02.3")
     fragments(ck, "C02.4")
     numbering(ck, "C02.5")
+    identity_arguments(ck, "C02.14")
+    pickled_state_complete(ck, "C02.15")
     ck.clause("C02.6", "map coordinates and lengths reach the records at full precision; queries trimmed, references not")
     from .c17 import no_narrowing, trim_formulae
     no_narrowing(ck, "C02.6")
@@ -420,6 +422,87 @@ def header_derivation(ck, rule, exact=False):
                          f"{k} is passed through unchanged", found=T.show(args[k])[:100], required=k)
     if n_derived == 0:
         raise AnalysisError(f"{fn.where}: no path of AlignmentResultRow.create derives the header from the pair list")
+
+
+def identity_arguments(ck, rule):
+    """Where the aligner builds a record, the identity fields are those of the two maps it aligned: ids and lengths are read from
+    the map objects themselves (<map>.moleculeId, <map>.length). A length recomputed from the labels agrees for a trimmed whole
+    query only - a second-pass fragment keeps the whole molecule's length and a slice of its labels."""
+    p = ck.ctx.p
+    ck.clause(rule, "Aligner.align passes <query>.moleculeId / <reference>.moleculeId / <query>.length / <reference>.length of the maps "
+                    "it aligned to AlignmentResultRow.create")
+    fn = p.find_method("Aligner", "align")
+    params = [pp.name for pp in fn.call_params()]
+    n = 0
+    for pa in explore(ck, fn, unroll=(0, 1)):
+        if pa.outcome != "return":
+            continue
+        for x in T.subterms(pa.value):
+            if x[0] == "app" and x[1].endswith("AlignmentResultRow.create"):
+                a = dict(x[3])
+                n += 1
+                for k, (obj, attr) in {"queryId": ("query", "moleculeId"), "referenceId": ("reference", "moleculeId"),
+                                       "queryLength": ("query", "length"), "referenceLength": ("reference", "length")}.items():
+                    v = a.get(k)
+                    if v is None or obj not in params:
+                        raise AnalysisError(f"{where(fn, pa.node)}: argument {k} of AlignmentResultRow.create not bound in Aligner.align")
+                    want = T.mk_attr(V(obj), attr)
+                    if v == want:
+                        ck.ok(rule, short(fn) + ":" + k, where(fn, pa.node), f"{k} <- {obj}.{attr}", T.show(v)[:80])
+                    elif any(y == T.mk_attr(V(obj), "positions") for y in T.subterms(v)) or \
+                            any(y[0] == "attr" and y[1] == V("reference" if obj == "query" else "query") for y in T.subterms(v)):
+                        ck.violation(rule, short(fn) + ":" + k, where(fn, pa.node),
+                                     f"{k} of the record is not the map's own {attr}: it is recomputed from the labels (or taken from the "
+                                     "other map) - a second-pass fragment carries the whole molecule's length and only a slice of its "
+                                     "labels, so its records report another QryLen than the molecule has",
+                                     found=T.show(v)[:160], required=f"{obj}.{attr}")
+                    else:
+                        raise AnalysisError(f"{where(fn, pa.node)}: argument {k} of AlignmentResultRow.create is not read: {T.show(v)[:120]}")
+        break
+    ck.floor(f"{rule} AlignmentResultRow.create calls in Aligner.align", n, 1)
+
+
+def pickled_state_complete(ck, rule):
+    """Maps and rows cross the process boundary (p_imap pickles every task and every result). A class that takes pickling into its
+    own hands (__reduce__ / __reduce_ex__ / __getstate__ / __getnewargs__) must carry every field of its constructor: a field left
+    out comes back with its default in the worker - `shift` of a second-pass fragment, for one."""
+    import ast
+    p = ck.ctx.p
+    ck.clause(rule, "a class of src/ with custom pickling carries every constructor field in the pickled state (maps and rows are "
+                    "pickled on their way to and from the workers)")
+    n = 0
+    for c in p.classes.values():
+        if c.module.is_test or not c.module.name.startswith("src."):
+            continue
+        hooks = [c.methods[m] for m in ("__reduce__", "__reduce_ex__", "__getstate__", "__getnewargs__", "__getnewargs_ex__") if m in c.methods]
+        if not hooks:
+            continue
+        init = p.lookup_method(c, "__init__", None)
+        fields = [pp.name for pp in init.call_params()] if init is not None else []
+        for h in hooks:
+            n += 1
+            if not h.self_name:
+                raise AnalysisError(f"{h.where}: pickling hook without self")
+            whole = any(isinstance(x, ast.Attribute) and isinstance(x.value, ast.Name) and x.value.id == h.self_name and x.attr == "__dict__"
+                        for x in ast.walk(h.node)) or any(isinstance(x, ast.Call) and ast.unparse(x.func) in ("vars", "dataclasses.asdict", "asdict",
+                                                                                                             "dataclasses.astuple", "astuple")
+                                                          for x in ast.walk(h.node))
+            read = {x.attr for x in ast.walk(h.node) if isinstance(x, ast.Attribute) and isinstance(x.value, ast.Name) and x.value.id == h.self_name}
+            missing = [f for f in fields if f not in read and mangle_free(f) not in read]
+            if whole or not missing:
+                ck.ok(rule, short(h) + ":state", h.where, "the pickled state carries every constructor field", ", ".join(fields))
+            else:
+                ck.violation(rule, short(h) + ":state", h.where,
+                             f"{c.name} is pickled without its field(s) {', '.join(missing)}: the object that arrives in the worker "
+                             "process has the default there - a second-pass fragment loses its label-number offset, so its records list "
+                             "fragment-relative label numbers next to whole-query coordinates",
+                             found=f"{h.name} reads {sorted(read)}", required=f"all of {fields}")
+    if n == 0:
+        ck.ok(rule, "custom-pickling", "src/", "no class of src/ defines a pickling hook (the default carries every field)", "")
+
+
+def mangle_free(name: str) -> str:
+    return name.lstrip("_")
 
 
 # ---------------------------------------------------------------------------------------------------------- C02.4
